@@ -235,7 +235,7 @@ type scenario struct {
 	prefix     int // the first prefix calls are issued one after the other, the rest together
 	depth      int
 	remoting   bool
-	startFails bool
+	startFails int // 0 no; 1 invalid advertise address (NewContext of the root fails); (2 remoting port already in use: Start still returns nil, the listen error is handled by the server actor later - not used)
 	blocks     bool
 	gomax      int
 }
@@ -256,7 +256,7 @@ func freeAddr() string {
 	return a
 }
 
-func (sc scenario) term(obs []int) lib.T {
+func (sc scenario) term(obs []int, blocks bool) lib.T {
 	calls := make([]lib.T, len(sc.calls))
 	for i, c := range sc.calls {
 		switch c.kind {
@@ -275,7 +275,7 @@ func (sc scenario) term(obs []int) lib.T {
 		}
 		o[i] = lib.NI(c)
 	}
-	return lib.L(lib.N(2), lib.L(lib.NI(sc.prefix), lib.Bool(sc.startFails), lib.Bool(sc.blocks)), lib.LS(calls), lib.LS(o))
+	return lib.L(lib.N(2), lib.L(lib.NI(sc.prefix), lib.Bool(sc.startFails != 0), lib.Bool(blocks)), lib.LS(calls), lib.LS(o))
 }
 
 func (sc scenario) describe() string {
@@ -322,8 +322,14 @@ func (h *H) runScenario(sc scenario) {
 		vivid.WithActorSystemLogger(log.NewSilentLogger()),
 		vivid.WithActorSystemStopTimeout(sysTimeout),
 	}
-	if sc.startFails {
-		opts = append(opts, vivid.WithActorSystemRemoting("127.0.0.1")) // no port: the remoting server cannot listen
+	var busy net.Listener
+	if sc.startFails == 1 {
+		opts = append(opts, vivid.WithActorSystemRemoting("127.0.0.1")) // no port: the root reference cannot be built
+	} else if sc.startFails == 2 {
+		if l, err := net.Listen("tcp", "127.0.0.1:0"); err == nil {
+			busy = l
+			opts = append(opts, vivid.WithActorSystemRemoting(l.Addr().String())) // the port is taken: the server cannot listen
+		}
 	} else if sc.remoting {
 		opts = append(opts, vivid.WithActorSystemRemoting(freeAddr()))
 	}
@@ -380,7 +386,7 @@ func (h *H) runScenario(sc scenario) {
 					}
 				}
 				sort.Strings(blocked)
-				h.o.Monitor("hang", sc.term(nil), fmt.Sprintf("%s: call #%d has not returned after %v (10x its timeout, at least 3 s). goroutines inside System methods:\n%s",
+				h.o.Monitor("hang", sc.term(nil, sc.blocks), fmt.Sprintf("%s: call #%d has not returned after %v (10x its timeout, at least 3 s). goroutines inside System methods:\n%s",
 					sc.describe(), i, limitOf(sc.calls[i]), strings.Join(blocked, "\n\n")))
 			}
 		}
@@ -405,7 +411,9 @@ func (h *H) runScenario(sc scenario) {
 		i := i
 		go func() { doCall(i); close(done) }()
 		await([]int{i}, []chan struct{}{done})
-		if !hung && sc.calls[i].kind == kStart && res[i].code == 0 {
+		if !hung && sc.calls[i].kind == kStart && res[i].code == 0 && parent.Err() == nil {
+			// (with the context already cancelled the guard goroutine is stopping the system right now: actors
+			// spawned under the dying root would not belong to the tree that Stop has to terminate)
 			buildTree()
 		}
 	}
@@ -445,7 +453,7 @@ func (h *H) runScenario(sc scenario) {
 			allDone = false
 		}
 	}
-	in := sc.term(obs)
+	in := sc.term(obs, sc.blocks && treeBuilt) // the tree blocks only if it exists
 	if allDone {
 		kind := fmt.Sprintf("rt-calls=%d", len(sc.calls))
 		if sc.prefix < len(sc.calls) {
@@ -529,10 +537,16 @@ func (h *H) runScenario(sc scenario) {
 		if expectDown {
 			h.o.Stats["rt-checked-after-stop"]++
 			var problems []string
-			select {
-			case <-actor.XVSysGuardClosed(sys):
-			default:
-				problems = append(problems, "guardClosedSignal is not closed (the root actor was not terminated)")
+			hasRoot := actor.XVSysHasCtx(sys)
+			if !hasRoot && started {
+				problems = append(problems, "a Start returned nil but system.Context is nil")
+			}
+			if hasRoot {
+				select {
+				case <-actor.XVSysGuardClosed(sys):
+				default:
+					problems = append(problems, "guardClosedSignal is not closed (the root actor was not terminated)")
+				}
 			}
 			if st := actor.XVSysStatus(sys); st != 2 {
 				problems = append(problems, fmt.Sprintf("status=%d", st))
@@ -543,7 +557,7 @@ func (h *H) runScenario(sc scenario) {
 			if k, l := ts.killed.Load(), ts.launched.Load(); k < l {
 				problems = append(problems, fmt.Sprintf("%d of %d user actors never received their own OnKilled", l-k, l))
 			}
-			if !actor.XVSysCtxDone(sys) {
+			if hasRoot && !actor.XVSysCtxDone(sys) {
 				problems = append(problems, "the system context is not cancelled")
 			}
 			if len(problems) > 0 {
@@ -563,6 +577,9 @@ func (h *H) runScenario(sc scenario) {
 		}
 	}
 	// ---- cleanup ----
+	if busy != nil {
+		busy.Close()
+	}
 	close(ts.unblock)
 	cancelParent()
 	stopped := make(chan struct{})
@@ -670,7 +687,8 @@ func (h *H) tierA(r *lib.Rand, thorough bool) {
 	// (2) start-up failure and a tree that does not terminate within the timeouts
 	special := [][]int{{kStart}, {kStart, kStop}, {kStart, kStart, kStop, kStop}, {kStop, kStart, kStop}, {kStart, kCancel, kStop}}
 	for _, o := range special {
-		h.runScenario(scenario{calls: mk(o, 0), prefix: len(o), startFails: true})
+		h.runScenario(scenario{calls: mk(o, 0), prefix: len(o), startFails: 1})
+		h.runScenario(scenario{calls: mk(o, 0), prefix: 0, startFails: 1})
 		c := mk(o, 0)
 		for i := range c {
 			if c[i].kind == kStop {
@@ -694,9 +712,9 @@ func (h *H) tierA(r *lib.Rand, thorough bool) {
 		{kStart, kStop}, {kStart, kStart}, {kStart, kStop, kStop}, {kStart, kStart, kStop, kStop, kStop, kCancel},
 		{kStart, kStop, kCancel}, {kStart, kCancel}, {kStart, kStart, kStop},
 	}
-	reps := 6
+	reps := 16
 	if thorough {
-		reps = 60
+		reps = 120
 	}
 	for _, o := range conc {
 		for rep := 0; rep < reps; rep++ {
@@ -707,9 +725,9 @@ func (h *H) tierA(r *lib.Rand, thorough bool) {
 	}
 	// (5) the Start || Stop race, many times (the window between Start's status switch and the assignment of
 	// system.Context is a few hundred nanoseconds wide)
-	n := 1500
+	n := 3000
 	if thorough {
-		n = 20000
+		n = 40000
 	}
 	for i := 0; i < n && h.raceHit < 3; i++ {
 		h.runScenario(scenario{calls: []rcall{{kind: kStart}, {kind: kStop, hasTmo: true, tmo: 2 * time.Second}}, prefix: 0, gomax: []int{2, 4, 8, 16}[i%4]})
@@ -948,6 +966,7 @@ func (h *H) lockstep(calls []tcall, choose func([]int, int) int) []vsched.Choice
 		h.o.Monitor(what, in, fmt.Sprintf("calls %v: unfinished threads that wait neither for a context cancel nor for the environment: %s | all: %s", describeCalls(calls), strings.Join(stuck, ", "), s.Stuck()))
 	}
 	if treeTimeout {
+		h.abortB = true // every further run that issues the kill would wait again
 		h.o.Monitor("root-not-terminated", in, "Kill(root) was issued but guardClosedSignal was not closed within 5 s on a system without user actors")
 	}
 	effective := 0
@@ -1037,9 +1056,9 @@ func (h *H) tierB(r *lib.Rand, thorough bool) {
 		{st, sp, sp}, {st, spd, ca}, {st, st, sp}, {st, sp, ca, spd},
 		{st, st, sp, spd, sp, ca},
 	}
-	bound, perCfg := 2, 150
+	bound, perCfg := 2, 400
 	if thorough {
-		bound, perCfg = 3, 4000
+		bound, perCfg = 3, 8000
 	}
 	total := 0
 	for _, c := range fixed {
@@ -1054,9 +1073,9 @@ func (h *H) tierB(r *lib.Rand, thorough bool) {
 	h.o.Info["ls_dfs_configs"] = len(fixed)
 	h.o.Info["ls_dfs_preemption_bound"] = bound
 	h.o.Info["ls_dfs_runs"] = total
-	n := 300
+	n := 1000
 	if thorough {
-		n = 6000
+		n = 12000
 	}
 	for i := 0; i < n && !h.abortB; i++ {
 		var calls []tcall
